@@ -61,6 +61,12 @@ func (g *Gen) Scenarios(p *ps.Program) []*ps.Scenario {
 	} else {
 		out = g.parScenarios(p)
 	}
+	// One slow all-ok scenario for programs with an emitter and a (small) concurrency limit: the
+	// directive outlives several state-flush ticks (100 ms), so goroutines created per tick show up
+	// in the distinct-goroutine count. pv >= 1000 marks it (the panic class still is pv mod 4).
+	if p.Emitters > 0 && p.Conc >= 1 && p.Conc <= 2 && len(out) > 0 && g.chance(50) {
+		out = append(out, &ps.Scenario{Execs: 1, Cancel: "none", PV: -1})
+	}
 	for i, sc := range out {
 		sc.SID = i
 		if sc.Execs == 0 {
@@ -69,8 +75,13 @@ func (g *Gen) Scenarios(p *ps.Program) []*ps.Scenario {
 		if sc.Cancel == "" {
 			sc.Cancel = "none"
 		}
+		slow := sc.PV == -1
 		sc.Conc = g.scenConc(p)
 		sc.PV = g.R.Intn(4)
+		if slow {
+			sc.Conc = p.Conc
+			sc.PV += 1000
+		}
 		if sc.Fn == nil {
 			sc.Fn = map[int]string{}
 		}
